@@ -107,6 +107,13 @@ def frame_to_list(f, fail_on=None):
     return [_n(x) for x in f.columns.values.tolist()] + [_n(f.name)]
 
 
+def frame_to_ragged(f, fail_on=None):
+    '''A nested list with rows of unequal length (unless the frame is square): one element per label, whatever its shape.'''
+    if fail_on is not None and f.name == fail_on:
+        raise TaskFailure('task failed on frame ' + str(f.name))
+    return [[_n(x) for x in f.index.values.tolist()], [_n(x) for x in f.columns.values.tolist()] + ['end']]
+
+
 # functions that build containers and touch process-global / lazily cached state (thread mode)
 def build_and_probe(v, n=3):
     import static_frame as sf
@@ -187,6 +194,19 @@ def probe_bus_whole(v, bus=None, labels=()):
     lab = labels[h % len(labels)]
     f = bus[lab]
     return (str(v), str(lab), type(f).__name__, tuple(f.shape))
+
+
+def probe_bus_iloc(v, bus=None, labels=()):
+    '''Every access by position (and, under max_persist, the element-wise items() path): an eviction by another
+    task between the cache update and the read must never hand out a placeholder.'''
+    h = int(v) if isinstance(v, (int, np.integer)) else sum(map(ord, str(v)))
+    n = len(labels)
+    f = bus.iloc[h % n]
+    g = bus.iloc[(h + 1) % n]
+    out = (str(v), type(f).__name__, tuple(f.shape), type(g).__name__, tuple(g.shape))
+    if h % 2:
+        out += tuple((str(k), type(x).__name__, tuple(x.shape)) for k, x in bus.items())
+    return out
 
 
 def alloc_probe(v, sizes=(3, 9, 5)):
